@@ -141,7 +141,8 @@ def x12n_document(param, src_file, fd_997, fd_html,
                 fic = seg.get_value('GS01')
                 vriic = seg.get_value('GS08')
                 map_file_new = map_index_if.get_filename(icvn, vriic, fic)
-                if map_file != map_file_new:
+                # cur_map is None: an empty GS01/GS08 selects the control map itself, which is not loaded as cur_map yet
+                if map_file != map_file_new or cur_map is None:
                     map_file = map_file_new
                     if map_file is None:
                         err_str = "Map not found.  icvn={}, fic={}, vriic={}".format(icvn, fic, vriic)
